@@ -1,7 +1,7 @@
 SPECIFICATION Spec
 CONSTANTS
   Chunks = 2
-  MaxVer = 3
+  MaxVer = 4
   Deviation = "none"
 INVARIANTS Reach_NewAfterCrashInSave
 PROPERTIES Act_ReloadEqualsLastSave
